@@ -942,3 +942,78 @@ func resolveOnIter(pa iterPath, hdr *ssa.BasicBlock, phi *ssa.Phi) ssa.Value {
 	}
 	return v
 }
+
+// ruleFloatGuard: JSON has no NaN/Infinity literals; strconv renders them as NaN, +Inf, -Inf.
+// Every strconv.AppendFloat/FormatFloat in the JSON encoder is therefore reachable only after
+// math.IsNaN and math.IsInf (both signs) were excluded for the value being formatted.
+func ruleFloatGuard(r *Run, p *Prog) {
+	n := 0
+	for _, f := range p.RootViews([]string{"internal/json"}, "", nil) {
+		eachInstr(f, func(b *ssa.BasicBlock, i int, in ssa.Instruction) {
+			c, ok := in.(*ssa.Call)
+			if !ok || !(isCallTo(&c.Call, "strconv.AppendFloat") || isCallTo(&c.Call, "strconv.FormatFloat")) {
+				return
+			}
+			n++
+			vi := 0
+			if isCallTo(&c.Call, "strconv.AppendFloat") {
+				vi = 1
+			}
+			val := c.Call.Args[vi]
+			same := func(v ssa.Value) bool {
+				for k := 0; k < 3; k++ {
+					if sameValue(v, val) {
+						return true
+					}
+					if cv, ok := v.(*ssa.Convert); ok {
+						v = cv.X
+						continue
+					}
+					break
+				}
+				w := val
+				for k := 0; k < 3; k++ {
+					if cv, ok := w.(*ssa.Convert); ok {
+						w = cv.X
+						if sameValue(v, w) {
+							return true
+						}
+						continue
+					}
+					break
+				}
+				return false
+			}
+			notNaN, notPosInf, notNegInf := false, false, false
+			for _, cm := range necessaryCmps(f, c) {
+				call, isCall := cm.X.(*ssa.Call)
+				bv, isB := constBool(cm.Y)
+				if !isCall || !isB {
+					continue
+				}
+				isFalse := (cm.Op == token.EQL && !bv) || (cm.Op == token.NEQ && bv)
+				if !isFalse || len(call.Call.Args) == 0 || !same(call.Call.Args[0]) {
+					continue
+				}
+				if isCallTo(&call.Call, "math.IsNaN") {
+					notNaN = true
+				}
+				if isCallTo(&call.Call, "math.IsInf") && len(call.Call.Args) == 2 {
+					if s, ok := constInt(call.Call.Args[1]); ok {
+						if s >= 0 {
+							notPosInf = true
+						}
+						if s <= 0 {
+							notNegInf = true
+						}
+					}
+				}
+			}
+			okc := notNaN && notPosInf && notNegInf
+			r.Ob("A4", originFnName(f, c)+"/float-finite", p.Pos(c.Pos()), okc, true, tern(okc, "the float is formatted only after NaN and ±Inf were excluded", "strconv formats "+descr(val)+" on a path that did not exclude NaN/+Inf/-Inf (NaN="+boolStr(notNaN)+", +Inf="+boolStr(notPosInf)+", -Inf="+boolStr(notNegInf)+"): the bare words NaN/+Inf/-Inf are not JSON"))
+		})
+	}
+	if n == 0 {
+		r.Fail("A4", "float-finite", "-", "no strconv float formatting found in internal/json (rule lost its grip)")
+	}
+}
